@@ -45,8 +45,35 @@ import (
 // GetConnectionID), so enumeration does not depend on the id generator.
 type c07Pipe struct {
 	*vk.BufConn
-	id   string
-	gate atomic.Pointer[c07Gate]
+	id        string
+	gate      atomic.Pointer[c07Gate]
+	closeGate atomic.Pointer[c07CloseGate]
+}
+
+// c07CloseGate makes closing a transport slow (network I/O): while armed, the first Close of a
+// transport parks until release is closed. Shared by the transports of one round.
+type c07CloseGate struct {
+	armed   atomic.Bool
+	inClose atomic.Int32
+	release chan struct{}
+	reg     *ClientRegistry // if set: park only when the registry lock is free (a Close issued while the
+	// closer holds the registry lock would merely stall every other registry operation)
+}
+
+func (p *c07Pipe) Close() error {
+	if g := p.closeGate.Load(); g != nil && g.armed.Load() && !p.BufConn.IsClosed() {
+		free := true
+		if g.reg != nil {
+			if free = g.reg.mu.TryLock(); free {
+				g.reg.mu.Unlock()
+			}
+		}
+		if free {
+			g.inClose.Add(1)
+			<-g.release
+		}
+	}
+	return p.BufConn.Close()
 }
 
 func (p *c07Pipe) GetConnectionID() string { return p.id }
